@@ -1,3 +1,4 @@
+import Comdex.Model.Accrual
 /-
 Model of the locker and collector books (property C13).  Core Lean only.
 
@@ -15,7 +16,7 @@ Sources (comdex, Go):
 
 `sdk.Int` is `Int`.  A denomination is identified with its asset id (the harness gives every asset its own denom).
 A returned error and a Go panic are both `none` (the whole message is rolled back by the cache context; nothing of a
-failed message is observable).  What is NOT modelled: ESM / kill-switch guards (never enabled here; property C14),
+failed message is observable).  What is NOT modelled:
 gas, events, block-height / block-time bookkeeping fields, the user→locker index (derived from the locker list: the
 index entry is written at create and zeroed at close, exactly when the locker record exists), the reward tracker's
 fractional part and `math.Pow` (the paid reward is an external input `Rw`), the four per-category counters of
@@ -93,6 +94,25 @@ structure Lk where
   ids       : List Nat
   deriving DecidableEq, Repr
 
+/-- `CollectorLookupTableData` (key = (app, collector asset)): saving rate with the block height / time at which it was
+last set (`BlockHeight = 0` marks "rate is zero"), and the auction thresholds. -/
+structure CL where
+  lsr        : Dec := 0
+  bh         : Int := 0
+  bt         : Int := 0
+  surplusThr : Int := 0
+  debtThr    : Int := 0
+  lot        : Int := 0
+  debtLot    : Int := 0
+  deriving DecidableEq, Repr
+
+/-- `AppAssetIdToAuctionLookupTable` (key = (app, asset)): which kind of auction the collector entry feeds, and whether one runs. -/
+structure AMap where
+  surplus : Bool := false
+  debt    : Bool := false
+  active  : Bool := false
+  deriving DecidableEq, Repr
+
 structure State where
   bank    : Bank := []
   lockers : Store Nat Locker := []
@@ -101,7 +121,14 @@ structure State where
   lastId  : Nat := 0                        -- GetIDForLocker
   assets  : List Nat := []
   apps    : List Nat := []
-  collk   : List (Nat × Nat) := []          -- keys of the collector lookup table
+  collk   : Store (Nat × Nat) CL := []      -- collector lookup table
+  ltime   : Store Nat (Int × Int) := []     -- Locker.BlockHeight, Locker.BlockTime (unix seconds)
+  trackers : Store (Nat × Nat) Dec := []    -- LockerRewardsTracker.RewardsAccumulated, key (locker id, app)
+  rewardWl : List (Nat × Nat) := []         -- (app, asset) whitelisted for internal rewards (`GetReward` found)
+  esmOn   : List Nat := []                  -- apps whose ESM status is `true` (emergency shutdown executed)
+  killOn  : List Nat := []                  -- apps whose kill switch (`BreakerEnable`) is on
+  amap    : Store (Nat × Nat) AMap := []    -- auction mapping of the collector
+  englishOn : List Nat := []                -- apps with `LiquidationWhiteListing.IsEnglishActivated`
   deriving Repr, DecidableEq
 
 def bal (s : State) (a : Acct) (d : Nat) : Int := s.bank.bal a d
@@ -197,6 +224,79 @@ def lockerGuards (s : State) (u app asset id : Nat) : Option Locker :=
       else if (Store.get s.lookup (app, asset)).isNone then none
       else some l
 
+/-! ## configuration changes and the auction start decision -/
+
+inductive Cfg where
+  | amap (app asset : Nat) (m : AMap)     -- SetAuctionMappingForApp / WasmSetAuctionMappingForApp (governance)
+  | esm (app : Nat) (on : Bool)           -- ESM executed for the app
+  | kill (app : Nat) (on : Bool)          -- kill switch
+  | english (app : Nat) (on : Bool)       -- liquidation whitelisting: English auctions activated
+  deriving Repr
+
+def setMem (l : List Nat) (a : Nat) (on : Bool) : List Nat :=
+  if on then (if a ∈ l then l else l ++ [a]) else l.filter (· ≠ a)
+
+def applyCfg (s : State) : Cfg → State
+  | .amap app asset m => { s with amap := Store.put s.amap (app, asset) m }
+  | .esm app on => { s with esmOn := setMem s.esmOn app on }
+  | .kill app on => { s with killOn := setMem s.killOn app on }
+  | .english app on => { s with englishOn := setMem s.englishOn app on }
+
+def setActive (s : State) (k : Nat × Nat) (m : AMap) : State :=
+  { s with amap := Store.put s.amap k { m with active := true } }
+
+/-- end of `CloseEnglishAuction` (auctions.go:398-406, 429-437): the mapping entry must exist, its active flag is cleared. -/
+def clearActive (s : State) (k : Nat × Nat) : Option State :=
+  match Store.get s.amap k with
+  | none => none
+  | some m => some { s with amap := Store.put s.amap k { m with active := false } }
+
+/-- The start decision of one begin-block for one auction-mapping entry `k = (app, asset)`; the Boolean says that the sweep is
+aborted (second generation only: `LiquidateForSurplusAndDebt` returns the first error and the begin-blocker, which is NOT wrapped
+in a cache context, keeps what was written so far).
+
+first generation (`gen2 = false`; x/auction `SurplusActivator` / `DebtActivator`, surplus.go:15-78, debt.go:15-70, each inside
+`ApplyFuncIfNoError`): not active, kill switch off, ESM off; surplus: `netFees ≥ surplusThreshold + lotSize` ⇒
+`GetAmountFromCollector(lot)` then active; debt: `netFees ≤ debtThreshold − lotSize` ⇒ active (nothing leaves the collector).
+second generation (`gen2 = true`; liquidationsV2 `CheckStatsForSurplusAndDebt`, liquidate.go:468-524): not active, kill switch
+off (ESM is NOT consulted); same two comparisons; the locked vault can only be created when English auctions are activated for
+the app — otherwise the error surfaces AFTER `GetAmountFromCollector` already moved the lot.
+Assumed: the surplus and debt flags are mutually exclusive (enforced by `SetAuctionMappingForApp`), both assets of the collector
+entry exist, first-generation auction parameters exist for the app. -/
+def activateOne (s : State) (gen2 : Bool) (k : Nat × Nat) : State × Bool :=
+  match Store.get s.amap k with
+  | none => (s, false)
+  | some m =>
+    if m.active || decide (k.1 ∈ s.killOn) || (!gen2 && decide (k.1 ∈ s.esmOn)) then (s, false)
+    else match Store.get s.collk k, Store.get s.fees k with
+      | some c, some v =>
+        if gen2 then
+          if v ≤ c.debtThr - c.lot ∧ m.debt = true then
+            if k.1 ∈ s.englishOn then (setActive s k m, false) else (s, true)
+          else if v ≥ c.surplusThr + c.lot ∧ m.surplus = true then
+            match getAmount s k c.lot with
+            | none => (s, true)
+            | some s1 => if k.1 ∈ s.englishOn then (setActive s1 k m, false) else (s1, true)
+          else (s, false)
+        else
+          if m.surplus then
+            if v ≥ c.surplusThr + c.lot then
+              match getAmount s k c.lot with
+              | none => (s, false)                 -- the activator's unit is rolled back
+              | some s1 => (setActive s1 k m, false)
+            else (s, false)
+          else if m.debt then
+            if v ≤ c.debtThr - c.lot then (setActive s k m, false) else (s, false)
+          else (s, false)
+      | _, _ => (s, false)
+
+/-- one begin-block sweep over the mapping entries `keys` (store order) -/
+def activate (s : State) (gen2 : Bool) : List (Nat × Nat) → State
+  | [] => s
+  | k :: ks =>
+    let r := activateOne s gen2 k
+    if r.2 then r.1 else activate r.1 gen2 ks
+
 /-! ## operations -/
 
 inductive Op where
@@ -217,54 +317,66 @@ inductive Op where
   | surplusFund (app asset u : Nat) (x : Int)             -- WasmMsgGetSurplusFund
   | v2SurplusClose (app asset u : Nat) (lot : Int)        -- CloseEnglishAuction, surplus branch
   | v2DebtClose (app asset : Nat) (c d : Int)             -- CloseEnglishAuction, debt branch: receives d, records c
+  | config (c : Cfg)                                      -- governance / emergency configuration
+  | activate (gen2 : Bool) (keys : List (Nat × Nat))      -- start decisions of one begin-block (x/auction resp. liquidationsV2)
   deriving Repr
 
-/-- one iteration of `LockerIterateRewards` for locker `id`. `none` = the whole call panics. The Boolean says whether the loop goes on
-(`return` on a reward-calculation error). -/
-def lsrIter (s : State) (app asset id : Nat) (rw : Rw) : Option (State × Bool) :=
+/-- how one iteration of `LockerIterateRewards` ends: `stop` = `return` (reward-calculation error), `next paid` = the loop goes
+on, `paid` saying whether the pay branch ran to its end (it does not after a `continue`). -/
+inductive IterRes where
+  | stop
+  | next (paid : Bool)
+  deriving DecidableEq, Repr
+
+/-- one iteration of `LockerIterateRewards` for locker `id`. `none` = the whole call panics. -/
+def lsrIter (s : State) (app asset id : Nat) (rw : Rw) : Option (State × IterRes) :=
   match Store.get s.lockers id with
   | none => none                                -- nil NetBalance: panic in CalculationOfRewards
   | some l =>
     match rw with
-    | .fail => some (s, false)                  -- `return`
-    | .none => some (s, true)
+    | .fail => some (s, .stop)                  -- `return`
+    | .none => some (s, .next false)
     | .pay ρ =>
       match decNetFee s (app, l.asset) ρ with
-      | none => some (s, true)                  -- `continue`
+      | none => some (s, .next false)           -- `continue`
       | some s1 =>
         let bank? := if ρ > 0 then s1.bank.send .collector .locker asset ρ else some s1.bank
         match bank? with
-        | none => some (s1, true)               -- `continue` after the net fee was already decreased
+        | none => some (s1, .next false)        -- `continue` after the net fee was already decreased
         | some b =>
           match Store.get s1.lookup (app, asset) with
           | none => none
           | some lk =>
             some ({ s1 with bank := b,
                             lockers := Store.put s1.lockers id { l with net := l.net + ρ, ret := l.ret + ρ },
-                            lookup := Store.put s1.lookup (app, asset) { lk with deposited := lk.deposited + ρ } }, true)
+                            lookup := Store.put s1.lookup (app, asset) { lk with deposited := lk.deposited + ρ } }, .next true)
 
 def lsrLoop (s : State) (app asset : Nat) : List Nat → List Rw → Option State
   | [], _ => some s
   | id :: ids, rws =>
     match lsrIter s app asset id (rws.headD .none) with
     | none => none
-    | some (s1, true) => lsrLoop s1 app asset ids rws.tail
-    | some (s1, false) => some s1
+    | some (s1, .next _) => lsrLoop s1 app asset ids rws.tail
+    | some (s1, .stop) => some s1
 
 def step (s : State) : Op → Option State
   | .fund u asset x => (s.bank.mint (.user u) asset x).map fun b => { s with bank := b }
   | .whitelist app asset =>
-    if app ∉ s.apps then none
+    if app ∈ s.esmOn then none                               -- ErrESMAlreadyExecuted
+    else if app ∈ s.killOn then none                         -- ErrCircuitBreakerEnabled
+    else if app ∉ s.apps then none
     else if asset ∉ s.assets then none
     else match Store.get s.lookup (app, asset) with
       | some _ => none
       | none => some { s with lookup := Store.put s.lookup (app, asset) { deposited := 0, ids := [] } }
   | .create u app asset amt =>
     if amt ≤ 0 then none                                     -- ValidateBasic
+    else if app ∈ s.esmOn then none                          -- ErrESMAlreadyExecuted (first guard of the handler)
+    else if app ∈ s.killOn then none                         -- ErrCircuitBreakerEnabled
     else if asset ∉ s.assets then none
     else if app ∉ s.apps then none
     else if userHasLocker s u app asset then none
-    else if (app, asset) ∉ s.collk then none
+    else if (Store.get s.collk (app, asset)).isNone then none
     else match Store.get s.lookup (app, asset) with
       | none => none
       | some lk =>
@@ -278,6 +390,8 @@ def step (s : State) : Op → Option State
                         lookup := Store.put s.lookup (app, asset) { deposited := lk.deposited + amt, ids := lk.ids ++ [id] } }
   | .deposit u app asset id amt rw =>
     if amt ≤ 0 ∨ id = 0 then none                            -- ValidateBasic
+    else if app ∈ s.esmOn then none                          -- ErrESMAlreadyExecuted (first guard of the handler)
+    else if app ∈ s.killOn then none                         -- ErrCircuitBreakerEnabled
     else match lockerGuards s u app asset id with
       | none => none
       | some _ =>
@@ -364,25 +478,27 @@ def step (s : State) : Op → Option State
     | some b1 =>
       match Bank.send b1 .auctionV2 (.user u) asset lot with
       | none => none
-      | some b2 => setNetFee { s with bank := b2 } (app, asset) lot
+      | some b2 => (setNetFee { s with bank := b2 } (app, asset) lot).bind fun s1 => clearActive s1 (app, asset)
   | .v2DebtClose app asset c d =>
     -- auctions.go:419-427: `DebtToken` (d, collector asset) arrives, `CollateralToken.Amount` (c, other asset) is recorded
-    (creditCollector s asset d).bind fun s1 => setNetFee s1 (app, asset) c
+    ((creditCollector s asset d).bind fun s1 => setNetFee s1 (app, asset) c).bind fun s2 => clearActive s2 (app, asset)
+  | .config c => some (applyCfg s c)
+  | .activate gen2 keys => some (activate s gen2 keys)
 
 /-- The two closes as they would read after the small repair proposed in notes/C13.md (surplus: hand out the lot that
 `GetAmountFromCollector` already moved to the first-generation auction account and leave the record alone; debt: record what
 arrives). The driver accepts this behaviour as well, so that a repaired tree checks clean; the theorems about it are
 `C13.repaired_surplus_close_exact` and `C13.repaired_debt_close_exact`. Every other op is `step`. -/
 def stepRepaired (s : State) : Op → Option State
-  | .v2SurplusClose _ asset u lot =>
+  | .v2SurplusClose app asset u lot =>
     match s.bank.send .auction .auctionV2 asset lot with
     | none => none
     | some b1 =>
       match Bank.send b1 .auctionV2 (.user u) asset lot with
       | none => none
-      | some b2 => some { s with bank := b2 }
+      | some b2 => clearActive { s with bank := b2 } (app, asset)
   | .v2DebtClose app asset _ d =>
-    (creditCollector s asset d).bind fun s1 => setNetFee s1 (app, asset) d
+    ((creditCollector s asset d).bind fun s1 => setNetFee s1 (app, asset) d).bind fun s2 => clearActive s2 (app, asset)
   | op => step s op
 
 def run (s : State) : List Op → Option State
@@ -393,6 +509,147 @@ def run (s : State) : List Op → Option State
 def runSkip (s : State) : List Op → State
   | [] => s
   | op :: ops => runSkip ((step s op).getD s) ops
+
+/-! ## the savings reward computed inside the model (x/rewards/keeper/rewards.go:538-576, iter.go:178-207)
+
+`CalculateLockerRewards` accrues `CalculationOfRewards(netBalance, savingRate, since)` — float64 arithmetic around ONE call of
+`math.Pow`, modelled exactly in `Comdex.Accrual` with the value of that call as the only input `pw` — into a per-locker tracker and
+hands whole units to the ledger code (`Rw`). `since` is the locker's own block time, or the collector entry's block time when the
+locker's block height is 0 (created / last touched while the rate was zero). -/
+
+structure Ctx where
+  now    : Int      -- ctx.BlockTime().Unix()
+  height : Int      -- ctx.BlockHeight()
+  deriving DecidableEq, Repr
+
+def tracker (s : State) (id app : Nat) : Dec := (Store.get s.trackers (id, app)).getD 0
+
+/-- seconds the code passes to `CalculationOfRewards` for locker `id` under collector entry `c` -/
+def elapsed (ctx : Ctx) (c : CL) (lt : Int × Int) : Int := ctx.now - (if lt.1 = 0 then c.bt else lt.2)
+
+/-- What `CalculateLockerRewards` decides before it touches the ledger: the `Rw` handed on, and the tracker value it stores
+(`none`: it returned before accruing — asset not whitelisted for rewards, or saving rate zero). -/
+def accrue (s : State) (ctx : Ctx) (app asset id : Nat) (pw : Option Int) : Rw × Option Dec :=
+  if (app, asset) ∉ s.rewardWl then (.none, none)
+  else match Store.get s.collk (app, asset) with
+    | none => (.fail, none)
+    | some c =>
+      if c.lsr = 0 then (.none, none)
+      else match Store.get s.lockers id, Store.get s.ltime id with
+        | some l, some lt =>
+          match Accrual.calcRewards l.net c.lsr (elapsed ctx c lt) pw with
+          | .ok x =>
+            let tr := tracker s id app
+            if Dec.one ≤ tr + x then (.pay (Accrual.trackerStep tr x).1, some (Accrual.trackerStep tr x).2)
+            else (.none, some (tr + x))
+          | _ => (.fail, none)
+        | _, _ => (.fail, none)
+
+def setTracker (s : State) (id app : Nat) : Option Dec → State
+  | none => s
+  | some t => { s with trackers := Store.put s.trackers (id, app) t }
+
+def touch (s : State) (id : Nat) (ctx : Ctx) : State :=
+  { s with ltime := Store.put s.ltime id (ctx.height, ctx.now) }
+
+/-- one iteration of `LockerIterateRewards` with the reward computed (old rate `lsr`, collector time `cbt`); `ct` = `changeTypes`. -/
+def lsrIterT (s : State) (ctx : Ctx) (app asset id : Nat) (lsr : Dec) (cbt : Int) (ct : Bool) (pw : Option Int) :
+    Option (State × Bool) :=
+  match Store.get s.lockers id, Store.get s.ltime id with
+  | some l, some lt =>
+    match Accrual.calcRewards l.net lsr (ctx.now - (if lt.1 = 0 then cbt else lt.2)) pw with
+    | .panic => none
+    | .err => some (s, false)                         -- `return`
+    | .ok x =>
+      let tr := tracker s id app
+      let stamp : Int × Int := (if ct then ctx.height else 0, ctx.now)
+      if Dec.one ≤ tr + x then
+        let s0 := { s with trackers := Store.put s.trackers (id, app) (Accrual.trackerStep tr x).2 }
+        match lsrIter s0 app asset id (.pay (Accrual.trackerStep tr x).1) with
+        | none => none
+        | some (s1, .next true) => some ({ s1 with ltime := Store.put s1.ltime id stamp }, true)
+        | some (s1, _) => some (s1, true)             -- `continue`: tracker already lowered, time stamp not renewed
+      else
+        some ({ s with trackers := Store.put s.trackers (id, app) (tr + x), ltime := Store.put s.ltime id stamp }, true)
+  | _, _ => none
+
+def lsrLoopT (s : State) (ctx : Ctx) (app asset : Nat) (lsr : Dec) (cbt : Int) (ct : Bool) : List Nat → List (Option Int) → Option State
+  | [], _ => some s
+  | id :: ids, pws =>
+    match lsrIterT s ctx app asset id lsr cbt ct (pws.headD none) with
+    | none => none
+    | some (s1, true) => lsrLoopT s1 ctx app asset lsr cbt ct ids pws.tail
+    | some (s1, false) => some s1
+
+def iterateRewards (s : State) (ctx : Ctx) (app asset : Nat) (lsr : Dec) (cbt : Int) (ct : Bool) (pws : List (Option Int)) : Option State :=
+  match Store.get s.lookup (app, asset) with
+  | none => some s
+  | some lk => lsrLoopT s ctx app asset lsr cbt ct lk.ids pws
+
+/-- operations with the reward computed inside the model -/
+inductive OpT where
+  | create (u app asset : Nat) (amt : Int)
+  | deposit (u app asset id : Nat) (amt : Int) (pw : Option Int)
+  | withdraw (u app asset id : Nat) (amt : Int) (pw : Option Int)
+  | close (u app asset id : Nat) (pw : Option Int)
+  | rewardCalc (app id : Nat) (pw : Option Int)
+  | lsrUpdate (app asset : Nat) (c : CL) (pws : List (Option Int))    -- WasmUpdateCollectorLookupTable (`c.bh`, `c.bt` unused)
+  | wlReward (app asset : Nat)                                       -- WhitelistAssetForInternalRewards
+  | plain (op : Op)                                                  -- every operation that involves no reward
+  deriving Repr
+
+/-- ops that carry an `Rw` or are superseded by a timed op may not be smuggled in through `plain` -/
+def Op.isPlain : Op → Bool
+  | .create .. | .deposit .. | .withdraw .. | .close .. | .rewardCalc .. | .lsrChange .. => false
+  | _ => true
+
+def stepT (s : State) (ctx : Ctx) : OpT → Option State
+  | .create u app asset amt =>
+    (step s (.create u app asset amt)).map fun s1 =>
+      let zero := match Store.get s.collk (app, asset) with | some c => decide (c.lsr = 0) | none => true
+      { s1 with ltime := Store.put s1.ltime s1.lastId (if zero then 0 else ctx.height, ctx.now) }
+  | .deposit u app asset id amt pw =>
+    let a := accrue s ctx app asset id pw
+    (step s (.deposit u app asset id amt a.1)).map fun s1 => touch (setTracker s1 id app a.2) id ctx
+  | .withdraw u app asset id amt pw =>
+    let a := accrue s ctx app asset id pw
+    (step s (.withdraw u app asset id amt a.1)).map fun s1 => touch (setTracker s1 id app a.2) id ctx
+  | .close u app asset id pw =>
+    let a := accrue s ctx app asset id pw
+    (step s (.close u app asset id a.1)).map fun s1 =>
+      { s1 with ltime := Store.del s1.ltime id, trackers := Store.del s1.trackers (id, app) }
+  | .rewardCalc app id pw =>
+    match Store.get s.lockers id with
+    | none => none
+    | some l =>
+      let a := accrue s ctx app l.asset id pw
+      (step s (.rewardCalc app id a.1)).map fun s1 =>
+        match a.2 with
+        | none => s1
+        | some t => touch (setTracker s1 id app (some t)) id ctx
+  | .lsrUpdate app asset c pws =>
+    match Store.get s.collk (app, asset) with
+    | none => none
+    | some old =>
+      let fin (s1 : State) (bh bt : Int) : State :=
+        { s1 with collk := Store.put s1.collk (app, asset) { c with bh := bh, bt := bt } }
+      if (app, asset) ∈ s.rewardWl then
+        if c.lsr = 0 then
+          (iterateRewards s ctx app asset old.lsr old.bt false pws).map fun s1 => fin s1 0 ctx.now
+        else if old.lsr = 0 then some (fin s ctx.height ctx.now)
+        else if old.lsr > 0 ∧ c.lsr > 0 then
+          (iterateRewards s ctx app asset old.lsr old.bt true pws).map fun s1 => fin s1 ctx.height ctx.now
+        else some (fin s old.bh old.bt)
+      else some (fin s old.bh old.bt)
+  | .wlReward app asset =>
+    if (Store.get s.lookup (app, asset)).isNone then none
+    else if (app, asset) ∈ s.rewardWl then some s
+    else some { s with rewardWl := s.rewardWl ++ [(app, asset)] }
+  | .plain op => if op.isPlain then step s op else none
+
+def runSkipT (s : State) : List (Ctx × OpT) → State
+  | [] => s
+  | (ctx, op) :: ops => runSkipT ((stepT s ctx op).getD s) ops
 
 /-! ## decidable monitors (evaluated by the driver on the REAL state projection) -/
 
